@@ -78,6 +78,8 @@ pub struct Matcher {
     matches: Vec<MatchResult>,
     /// Section 104 pools (remaining after same-day and B&B)
     pools: HashMap<String, Section104Holding>,
+    /// Shares actually held per ticker: acquired minus disposed, in current (split-adjusted) units
+    positions: HashMap<String, Decimal>,
 }
 
 impl Matcher {
@@ -87,6 +89,7 @@ impl Matcher {
             ledgers: HashMap::new(),
             matches: Vec::new(),
             pools: HashMap::new(),
+            positions: HashMap::new(),
         }
     }
 
@@ -133,6 +136,7 @@ impl Matcher {
                         )));
                     }
                     let cost_offset = cost_offsets.get(idx).copied().unwrap_or(Decimal::ZERO);
+                    *self.positions.entry(tx.ticker.clone()).or_default() += *amount;
                     let ledger = self.ledgers.entry(tx.ticker.clone()).or_default();
                     ledger.add_acquisition(
                         idx,
@@ -392,6 +396,18 @@ impl Matcher {
             .map(|p| p.quantity)
             .unwrap_or(Decimal::ZERO);
         let total_held = ledger_held + pool_held;
+
+        // A disposal matched to a later acquisition (B&B) does not reduce the pool, so the pool
+        // alone overstates the holding. Check against the shares actually held as well.
+        let position = self.positions.entry(tx.ticker.clone()).or_default();
+        if *amount > *position {
+            return Err(CgtError::InvalidTransaction(format!(
+                "SELL {} on {}: disposal of {} shares exceeds holding of {}",
+                tx.ticker, tx.date, amount, position
+            )));
+        }
+        *position -= *amount;
+
         if *amount > total_held {
             return Err(CgtError::InvalidTransaction(format!(
                 "SELL {} on {}: disposal of {} shares exceeds holding of {} \
@@ -487,11 +503,19 @@ impl Matcher {
     fn process_corporate_action(&mut self, tx: &GbpTransaction) -> Result<(), CgtError> {
         match &tx.operation {
             Operation::Split { ratio } => {
+                if let Some(position) = self.positions.get_mut(&tx.ticker) {
+                    *position *= *ratio;
+                }
                 if let Some(pool) = self.pools.get_mut(&tx.ticker) {
                     pool.quantity *= *ratio;
                 }
             }
             Operation::Unsplit { ratio } => {
+                if *ratio != Decimal::ZERO
+                    && let Some(position) = self.positions.get_mut(&tx.ticker)
+                {
+                    *position /= *ratio;
+                }
                 if let Some(pool) = self.pools.get_mut(&tx.ticker)
                     && *ratio != Decimal::ZERO
                 {
